@@ -359,7 +359,7 @@ def r7(R):
                         x.value.args[1], ast.Name) and \
                     x.value.args[1].id == bound:
                 requery = True
-        if bound and requery:
+        if bound and requery and _feeds_base_result(f, l, bound):
             ok = True
     if not ok:
         R.violation((f.module.relpath, f.qualname, 'end tid of base revision'),
@@ -369,6 +369,38 @@ def r7(R):
                     'changes layer the base revision\'s interval overlaps '
                     'them, and snapshots in between see two current '
                     'revisions')
+
+
+def _feeds_base_result(f, loop, bound):
+    """The bound the walk ends with becomes part of what is returned for the
+    base's revision: outside the loop it occurs in the value of a statement
+    that rebuilds (or returns) a name bound to `self.base.loadBefore(...)`.
+    (A walk whose result only decides something else -- the pack test of
+    C16.R14 -- does not find the end of the base revision's interval.)"""
+    inloop = {id(x) for x in ast.walk(loop)}
+    base_names = set()
+    for x in walk_local(f.node):
+        if isinstance(x, ast.Assign) and isinstance(
+                x.value, ast.Call) and dotted(x.value.func) == (
+                    'self', 'base', 'loadBefore'):
+            base_names |= {t.id for t in x.targets
+                           if isinstance(t, ast.Name)}
+    for x in walk_local(f.node):
+        if id(x) in inloop:
+            continue
+        val = None
+        if isinstance(x, ast.Assign) and any(
+                isinstance(t, ast.Name) and t.id in base_names
+                for t in x.targets):
+            val = x.value
+        elif isinstance(x, ast.Return) and x.value is not None:
+            val = x.value
+        if val is None:
+            continue
+        names = {n.id for n in ast.walk(val) if isinstance(n, ast.Name)}
+        if bound in names and (names & base_names):
+            return True
+    return False
 
 
 # ------------------------------------------------------------------ C16.R8
